@@ -229,7 +229,8 @@ def post(V, rng, tier):
             cores = [np.array([rng.randint(-2, 2) for _ in range(rk[i] * so[i] * si[i] * rk[i + 1])], dtype=np.float64).reshape(rk[i], so[i], si[i], rk[i + 1]) for i in range(d)]
             with torch.no_grad():
                 for p_, c in zip(L.cores, cores): p_.copy_(torch.tensor(c).to(dtype))
-                L.bias.copy_(torch.tensor(np.array([rng.randint(-2, 2) for _ in range(int(np.prod(so)))], dtype=np.float64).reshape(so)).to(dtype))
+                if j % 3 != 1: L.bias.copy_(torch.tensor(np.array([rng.randint(-2, 2) for _ in range(int(np.prod(so)))], dtype=np.float64).reshape(so)).to(dtype))
+                # (every third case: the bias as both initialisers leave it, all zeros - its gradient is the batch sum of the upstream weights all the same)
             X = np.array([rng.randint(-2, 2) for _ in range(int(np.prod(B + si)))], dtype=np.float64).reshape(B + si)
             Wt = np.array([rng.randint(-2, 2) for _ in range(int(np.prod(B + so)))], dtype=np.float64).reshape(B + so)
             (L.forward(torch.tensor(X).to(dtype)) * torch.tensor(Wt).to(dtype)).sum().backward()
@@ -238,12 +239,34 @@ def post(V, rng, tier):
             w2 = w2.transpose([a for i in range(d) for a in (i, d + i)]).reshape([so[i] * si[i] for i in range(d)])     # merged modes (m_i, n_i) -> m_i * N_i + n_i
             cs_ = "[" + ";".join("(%d%%nat,%d%%nat,%d%%nat,%s)" % (c.shape[0], c.shape[1] * c.shape[2], c.shape[3], coqrun.zlist(c.reshape(-1))) for c in cores) + "]"
             g_ = L.cores[k_].grad.detach().to(torch.float64).numpy()
-            bg = L.bias.grad.detach().to(torch.float64).numpy()
-            if not np.array_equal(bg, Wt.reshape([-1] + so).sum(0)): V.fail("gradient of the bias differs from the sum of the upstream weights over the batch", {"so": so, "si": si, "batch": B})
+            bg = None if L.bias.grad is None else L.bias.grad.detach().to(torch.float64).numpy()
+            if bg is None or not np.array_equal(bg, Wt.reshape([-1] + so).sum(0)): V.fail("gradient of the bias differs from the sum of the upstream weights over the batch", {"so": so, "si": si, "batch": B, "bias_all_zero": j % 3 == 1, "got": "None" if bg is None else "array"})
             cases.append("[check_core_grad (R:=Z) %s %d %s %s]" % (cs_, k_, coqrun.zlist(w2.reshape(-1)), coqrun.zlist(g_.reshape(-1))))
             metas.append({"family": "layer core gradient vs Model/CoreGrad.v", "size_out": so, "size_in": si, "rank": rk, "batch": B, "core": k_, "dtype": str(dtype)})
         except Exception as ex:
             V.fail("layer core gradient raises %s" % type(ex).__name__, {"so": so, "si": si, "rank": rk, "exc": str(ex)[:200]})
+    # a batch dimension of extent 0 (the last, short batch of a data loader that came out empty): forward keeps the batch shape and gives the output modes, the
+    # gradients of all parameters are zeros of the parameters' shapes (what the dense map x.reshape(0, -1) @ W.T + b gives)
+    n_empty = 0
+    for j in range(6 if tier == "quick" else 60):
+        d = rng.choice([1, 2, 3]); so = [rng.choice([1, 2, 3, 4]) for _ in range(d)]; si = [rng.choice([1, 2, 3]) for _ in range(d)]
+        if so == si: so[0] += 1
+        if j % 3 == 2: so = [1] + si[1:] if d > 1 else [1]          # output modes that would broadcast against the input's: a wrong shape does not raise
+        rk = [1] + [rng.choice([1, 2]) for _ in range(d - 1)] + [1]; B = [[0], [2, 0], [0, 3]][j % 3]
+        dtype = torch.float64 if j % 2 else torch.float32
+        desc = {"empty_batch": True, "size_out": so, "size_in": si, "rank": rk, "batch": B, "dtype": str(dtype)}
+        try:
+            L = torchtt.nn.LinearLayerTT(si, so, rk, dtype=dtype, initializer=rng.choice(["He", "Glo"]))
+            y = L.forward(torch.zeros(B + si, dtype=dtype))
+            if list(y.shape) != B + so: V.fail("forward of an empty batch has the wrong shape", dict(desc, got=list(y.shape), want=B + so))
+            else:
+                y.sum().backward()
+                for nm_, p_ in list(zip(["core %d" % k for k in range(d)], L.cores)) + [("bias", L.bias)]:
+                    if p_.grad is None or list(p_.grad.shape) != list(p_.shape) or bool((p_.grad != 0).any()):
+                        V.fail("gradient of a parameter after an empty batch is not the zero array of its shape", dict(desc, parameter=nm_, got="None" if p_.grad is None else list(p_.grad.shape))); break
+        except Exception as ex:
+            V.fail("forward / backward of an empty batch raises %s" % type(ex).__name__, dict(desc, exc=str(ex)[:200]))
+        n_empty += 1
     n_ok = 0
     if cases:
         try:
@@ -253,7 +276,7 @@ def post(V, rng, tier):
                 else: n_ok += 1
         except Exception as ex:
             V.fail("layer core gradient correspondence: the model could not be evaluated", {"exc": str(ex)[:300]}, failing_input=False)
-    return {"layer_core_gradients_equal_model": n_ok}
+    return {"layer_core_gradients_equal_model": n_ok, "empty_batch_cases": n_empty}
 
 def run(tier, seed, replay=None):
     import torch
